@@ -223,7 +223,10 @@ CHECKS = {
              "null_key_never_matches (+ under conjunction), left_join_rows, full_join_rows, left_join_keeps_left, cross_join_rows / cross_join_count (full product), "
              "join_visible; counter_no_collision and auto_suffix_names (no right name, renamed or untouched, equals a left name and the right names stay pairwise "
              "distinct, for all name lists and suffixes), join_scope / join_scope_meta (every visible or hidden column of either input stays in scope with its "
-             "metadata). Oracle: probe columns through original references (C09's oracle), names, and frames of Polars / SQLite vs Spec.run on join programs with "
+             "metadata). Pdt/Props/C06Sql.lean: sql_refines_spec_join (an inner, left or full join of two source tables with an element-wise predicate, "
+             "followed by any select / rename / filter / mutate with element-wise expressions, compiles to one SELECT over t1 JOIN t2 ON ... and evaluates to "
+             "exactly the frame of the reference semantics, for every database and needed_cols state; join_source_inv, join_keys). Oracle: probe columns "
+             "through original references (C09's oracle), names, and frames of Polars / SQLite vs Spec.run on join programs with "
              "duplicate / null keys, empty sides, hidden-name collisions and preceding verbs on both sides.",
         design_ref="DESIGN.md section 5, C06",
         note=NOTE_COMMON + "D12 (suffix counter depended on set iteration order) was repaired in /repo. Known findings by trigger: D33, D49, D52.",
@@ -281,7 +284,8 @@ CHECKS = {
              "allocated is compared with the model's run on the same tree. Partial: the remainder of the property is about the Python object model and is decided on "
              "the real code only: deep fingerprints of every table, cache, AST node, expression object and source frame around every verb, export (twice, and again at "
              "the end of the history) and query build on Polars, SQLite and the SQL Server dialect compiler; one expression object reused under different group_by states "
-             "and in mutate and summarize vs fresh objects; source frames and database tables unchanged.",
+             "and in mutate and summarize vs fresh objects; source frames and database tables unchanged. Expression API stream (harness/exprapi.py): every way of building an expression from a kept expression object (when / then continued from a "
+             "partial case expression, operators, registry methods, context arguments, use in verbs and exports) leaves the kept object and its value unchanged.",
         design_ref="DESIGN.md section 5, C10",
         note=NOTE_COMMON + "D6 (partition_by written into the user's expression object) was repaired in /repo. Memoised _dtype / _ftype (None -> value) are not counted as changes.",
     ),
